@@ -74,6 +74,10 @@ fn family(name: &str) -> GenCfg {
         // (each borrows a node of its own), against writers; nofast and default strategies
         "shutdown" => GenCfg { threads: (2, 3), containers: 2, strategy: 0, late: true, with_null: false, ..base },
         "shutdownnf" => GenCfg { threads: (2, 3), containers: 2, strategy: 1, late: true, with_null: false, ..base },
+        // the lock-based strategy under the scheduler (its lock is taken cooperatively under the
+        // verification flag): readers, writers, compare_and_swap and rcu callers
+        "rwlock" => GenCfg { threads: (2, 4), strategy: 2, w: [6, 4, 4, 2, 5, 4, 4, 3, 2], with_null: true, ..base },
+        "rwlockaba" => GenCfg { threads: (2, 3), strategy: 2, aba: true, with_null: false, ..base },
         "helpab" => GenCfg { threads: (2, 3), containers: 2, strategy: 1, alternate: true, with_null: false, ..base },
         "xtype" => GenCfg { threads: (3, 4), second_type: true, w: [9, 3, 4, 1, 7, 3, 1, 1, 1], ops: (3, 7), with_null: false, ..base },
         other => panic!("unknown family {}", other),
@@ -85,6 +89,7 @@ fn run_one(p: &Program, policy: Policy, cfg: &RunCfg) -> Outcome {
         0 => conc::run::<DefaultStrategy>(p, policy, cfg),
         #[allow(deprecated)]
         1 => conc::run::<FillFastSlots>(p, policy, cfg),
+        2 => conc::run::<std::sync::RwLock<()>>(p, policy, cfg),
         _ => panic!("strategy not supported by the concurrent engine"),
     }
 }
